@@ -307,6 +307,28 @@ func c19Outcomes(c *Ctx) {
 			return ok && fieldOf(fa) == fLocID
 		}
 	}
+	// LocID[i] == k, tested byte by byte or as a whole array (loc.LocID == [2]byte{0, 1})
+	locByteIs := func(i, k int64) func(ssa.Value, bool) bool {
+		single := cmpConst(locByte(i), k, true)
+		return func(v ssa.Value, truth bool) bool {
+			if single(v, truth) {
+				return true
+			}
+			b, ok := v.(*ssa.BinOp)
+			if !ok || (b.Op != token.EQL && b.Op != token.NEQ) || (b.Op == token.EQL) != truth {
+				return false
+			}
+			for _, pr := range [][2]ssa.Value{{b.X, b.Y}, {b.Y, b.X}} {
+				if !isFieldLoad(pr[0], fLocID) {
+					continue
+				}
+				if arr, isArr := arrayConst(pr[1]); isArr && int(i) < len(arr) && arr[i] == k {
+					return true
+				}
+			}
+			return false
+		}
+	}
 	maskPos := func(want bool) func(ssa.Value, bool) bool {
 		return func(v ssa.Value, truth bool) bool {
 			b, ok := v.(*ssa.BinOp)
@@ -395,9 +417,9 @@ func c19Outcomes(c *Ctx) {
 		"DNS_cache.expired":              {{"lru.Get ok", boolIs(extractOf("Get", 1), true)}, {"expired", expired(true)}},
 		"DNS_cache.missed":               {{"lru.Get !ok", boolIs(extractOf("Get", 1), false)}},
 		"DNS_location.ecs":               {{"loc.Mask > 0", maskPos(true)}},
-		"DNS_location.empty":             {{"loc.Mask == 0", maskPos(false)}, {"LocID[0] == 0", cmpConst(locByte(0), 0, true)}, {"LocID[1] == 0", cmpConst(locByte(1), 0, true)}},
-		"DNS_location.default":           {{"loc.Mask == 0", maskPos(false)}, {"LocID[0] == 0", cmpConst(locByte(0), 0, true)}, {"LocID[1] == 1", cmpConst(locByte(1), 1, true)}},
-		"DNS_location.fallback_default":  {{"loc.Mask == 0", maskPos(false)}, {"LocID[0] == 0", cmpConst(locByte(0), 0, true)}, {"LocID[1] == 2", cmpConst(locByte(1), 2, true)}},
+		"DNS_location.empty":             {{"loc.Mask == 0", maskPos(false)}, {"LocID[0] == 0", locByteIs(0, 0)}, {"LocID[1] == 0", locByteIs(1, 0)}},
+		"DNS_location.default":           {{"loc.Mask == 0", maskPos(false)}, {"LocID[0] == 0", locByteIs(0, 0)}, {"LocID[1] == 1", locByteIs(1, 1)}},
+		"DNS_location.fallback_default":  {{"loc.Mask == 0", maskPos(false)}, {"LocID[0] == 0", locByteIs(0, 0)}, {"LocID[1] == 2", locByteIs(1, 2)}},
 		"DNS_location.resolver":          {{"loc.Mask == 0", maskPos(false)}},
 		"DNS_response.refused":           {{"!ns", boolIs(isNs, false)}, {"!auth", boolIs(isAuth, false)}},
 		"DNS_response.authoritative":     {{"auth", func(v ssa.Value, truth bool) bool { return truth && authValue(v) }}},
